@@ -7,15 +7,20 @@
 (*          "stl_written" tris / "stl_loaded" tris : triangles as three points of float32 ids                   *)
 EXTENDS TraceKit, C04_Codec, C02_Build
 VARIABLES ci, ei, st, nj, ns, ne
-InitState(c) == [m |-> c.given.m, fam |-> c.given.family, r32 |-> c.given.r32]
+InitState(c) == [m |-> c.given.m, fam |-> c.given.family, r32 |-> c.given.r32, cfgE |-> c.given.cfgE, objE |-> c.given.objE]
 PairSetOf(q) == { Key2(<<q[i][1], q[i][2]>>) : i \in 1..Len(q) }
 ByArity(q, k) == SelectSeq(q, LAMBDA x : Len(x) = k)
 SameElems(f, got, want) ==       \* medit groups elements by kind: compare kind by kind; elsewhere the order is the file order
   IF f = "mesh" THEN \A k \in 3..8 : ByArity(got, k) = ByArity(want, k) ELSE got = want
 (* the edges a format carries for this mesh: every edge (geogram, polylines), or only the declared ones (obj, medit on surfaces/volumes) *)
-FileEdges(f, m) == IF f \notin {"obj", "mesh", "geogram_ascii"} THEN {}           \* off, tet, xyz have no edge vocabulary
+FileEdges0(f, m) == IF f \notin {"obj", "mesh", "geogram_ascii"} THEN {}           \* off, tet, xyz have no edge vocabulary
                    ELSE IF f = "geogram_ascii" \/ (m.F = <<>> /\ m.C = <<>>) THEN PairSetOf(m.E)
                    ELSE PairSetOf(m.H)
+(* two configuration switches change the vocabulary: with edge completion off every edge of the mesh is a declared one (and is written); *)
+(* with export_edges_in_obj off an .obj file carries no edge                                                                              *)
+FileEdgesS(s, f, m) == IF f = "obj" /\ s.objE = 0 THEN {}
+                       ELSE IF s.cfgE = 0 /\ f \in {"obj", "mesh"} THEN PairSetOf(m.E)
+                       ELSE FileEdges0(f, m)
 HasNonVocab(f, m) == \/ (f = "mesh" /\ ((\E k \in 1..Len(m.F) : Len(m.F[k]) > 4) \/ (\E k \in 1..Len(m.C) : Len(m.C[k]) \notin {4, 8})))
 TypeClass(t) == IF t \in {"\"int\"", "\"index_t\"", "\"signed_index_t\"", "\"unsigned int\""} THEN "int"
                 ELSE IF t \in {"\"double\"", "\"float\""} THEN "float" ELSE t
@@ -31,7 +36,7 @@ Judge(c, s, e) ==
               IN Check(<< << r.V = p.V, "coordinates_bit_exact_for_an_independent_reader" >>,
                           << SameElems(e.f, r.F, p.F), "faces_mean_the_same_to_an_independent_reader" >>,
                           << SameElems(e.f, r.C, p.C), "cells_mean_the_same_to_an_independent_reader" >>,
-                          << PairSetOf(r.E) = FileEdges(e.f, m) /\ Len(r.E) = Cardinality(FileEdges(e.f, m)), "edges_mean_the_same_to_an_independent_reader" >>,
+                          << PairSetOf(r.E) = FileEdgesS(s, e.f, m) /\ Len(r.E) = Cardinality(FileEdgesS(s, e.f, m)), "edges_mean_the_same_to_an_independent_reader" >>,
                           << e.f # "geogram_ascii" \/ \A a \in WantAtts(m) :
                                 \E b \in r.att : b.set = a.set /\ b.name = a.name /\ TypeClass(b.type) = TypeClass(a.type) /\ b.dim = a.dim
                                                  /\ [j \in 1..Len(b.vals) |-> b.vals[j].n] = a.vals, "attributes_mean_the_same_to_an_independent_reader" >> >>,
@@ -40,7 +45,7 @@ Judge(c, s, e) ==
          IF e.exc # "" THEN Bad("load_succeeds", Cls(s, e), e.exc, s)
          ELSE LET p == Project(e.f, m)
                   o == e.obs
-                  raw == [nv |-> Len(p.V), E |-> SetToSeq(FileEdges(e.f, m)), F |-> p.F, C |-> p.C, att |-> {}, completeE |-> TRUE, completeF |-> TRUE]
+                  raw == [nv |-> Len(p.V), E |-> SetToSeq(FileEdgesS(s, e.f, m)), F |-> p.F, C |-> p.C, att |-> {}, completeE |-> (s.cfgE = 1), completeF |-> TRUE]
                   want == Build(raw)
               IN Check(<< << o.cls = ClassOfMesh([p EXCEPT !.E = raw.E]), "loaded_object_has_the_class_its_content_implies" >>,
                           << o.V = p.V, "coordinates_come_back_bit_exact" >>,
@@ -48,8 +53,8 @@ Judge(c, s, e) ==
                              /\ { VSet(o.F[k]) : k \in 1..Len(o.F) } = { VSet(want.F[k]) : k \in 1..Len(want.F) }, "faces_come_back_with_the_same_vertex_order" >>,
                           << SameElems(e.f, o.C, p.C), "cells_come_back_with_the_same_vertex_order" >>,
                           << PairSetOf(o.E) = PairSetOf(want.E) /\ Len(o.E) = Len(want.E), "edges_come_back" >>,
-                          << { Key2(<<o.E[h + 1][1], o.E[h + 1][2]>>) : h \in SeqToSet(o.hard) } = FileEdges(e.f, m) \cap PairSetOf(m.H)
-                             \/ (p.F = <<>> /\ p.C = <<>>), "declared_edges_stay_the_hard_edges" >>,     \* hard flags only exist next to faces
+                          << { Key2(<<o.E[h + 1][1], o.E[h + 1][2]>>) : h \in SeqToSet(o.hard) } = FileEdgesS(s, e.f, m) \cap PairSetOf(m.H)
+                             \/ (p.F = <<>> /\ p.C = <<>>) \/ s.cfgE = 0, "declared_edges_stay_the_hard_edges" >>,     \* hard flags only exist next to faces
                           << e.f # "geogram_ascii" \/ \A a \in WantAtts(m) :
                                 \E i \in 1..Len(o.att) : o.att[i].set = a.set /\ o.att[i].name = a.name /\ TypeClass(o.att[i].type) = TypeClass(a.type)
                                                           /\ o.att[i].dim = a.dim /\ o.att[i].vals = a.vals, "attributes_come_back_with_name_type_arity_values" >> >>,
